@@ -242,11 +242,11 @@ class Gen:
         for _ in range(r.range(2, 7)):
             k = self.anykey() if self.fl == 'route' else self.qkey()
             case['main'].append(['append', str(k), str(self.cbkind()), str(r.range(1, NCB)), str(self.hreg(k, new=True))])
-        if self.fl == 'pif':
-            # drain and refill so that every later event sits in a recycled slot of another prototype
-            for _ in range(r.range(1, 4)):
-                case['main'].append(['enqueue', str(self.qkey()), str(self.argkind()), str(r.range(1, 999))])
-            case['main'].append(['process'] if r.chance(70) else ['clear'])
+        # every case: fill and drain first, so that every later event sits in a recycled slot that held
+        # an event of (most likely) another prototype
+        for _ in range(r.range(1, 4) if self.fl == 'pif' else r.range(1, 2)):
+            case['main'].append(['enqueue', str(self.qkey()), str(self.argkind()), str(r.range(1, 999))])
+        case['main'].append(['process'] if r.chance(70) else ['clear'])
         for _ in range(r.range(8, 40)):
             case['main'].append(self.cmd(0))
         case['main'] += [['ledger'], ['emptyq'], ['process'], ['emptyq'], ['ledger']]
